@@ -79,9 +79,14 @@ def replaceFirst (s old new : Str) : Str :=
   | none => s
   | some i => s.take i ++ new ++ s.drop (i + old.length)
 
-/-- `resolveExternalLink`: (absolute target, node) of the first non-link at the end of the chain -/
+/-- bound on the length of a symlink chain followed when dereferencing (`maxLinkHops`) -/
+def maxLinkHops : Nat := 255
+
+/-- `resolveExternalLinkHops`: (absolute target, node) of the first non-link at the end of the
+chain; the argument counts the hops still allowed ("too many levels of symbolic links" when
+none is left) -/
 def resolveExternalLink (fs : FS) : Nat → Str → Except PResult (Str × Node)
-  | 0, _ => .error .diverged
+  | 0, _ => .error .ioerr
   | fuel + 1, path =>
     match fs.readlink path with
     | .error _ => .error .ioerr
@@ -174,7 +179,7 @@ def visit (fs : FS) (cwd : Str) (o : PackOpts) (rules : Option (List Rule)) (roo
                   ({ entries := st.entries ++ [e], pmeta := { files := st.pmeta.files ++ [e.name], size := st.pmeta.size } }, .cont)
                 else if !o.dereference then (st, .stop .illegal)
                 else
-                  match resolveExternalLink fs fuel path with
+                  match resolveExternalLink fs maxLinkHops path with
                   | .error r => (st, .stop r)
                   | .ok (absTarget, .dir _ _) =>
                     -- nested filepath.Walk(absTarget, packWalkFn(root, absTarget, path))
@@ -198,7 +203,7 @@ def visit (fs : FS) (cwd : Str) (o : PackOpts) (rules : Option (List Rule)) (roo
                       let e : Entry := { name := sub, typ := tReg, mode := perm &&& 0o777, mtime := roundSec mt, link := [], body := body }
                       ({ entries := st.entries ++ [e],
                          pmeta := { files := st.pmeta.files ++ [e.name], size := st.pmeta.size + utf8Len body } }, .cont)
-                  | .ok _ => (st, .stop .ioerr)    -- "unexpected file mode" is not reached: header written as regular; see lane
+                  | .ok _ => (st, .cont)    -- the target is a special file: skipped like one in the tree
 end
 
 def packFuel : Nat := 4000
